@@ -10,6 +10,9 @@ usage: tools/seeded_run.py [--tier quick|thorough] [--only <id substring>] [--ex
 import argparse, json, os, subprocess, sys, time
 VERIF = os.path.dirname(os.path.dirname(os.path.abspath(__file__)))
 REPO = "/repo"
+# mutants are applied to a scratch copy of /repo (FGUTILS_REPO), so that /repo itself stays untouched
+# while other work reads it; --in-place applies to /repo itself as the brief describes
+SCRATCH = "/tmp/seeded_repo_copy"
 
 
 def sh(cmd, **k):
@@ -20,7 +23,14 @@ def main():
     ap = argparse.ArgumentParser()
     ap.add_argument("--tier", default="quick")
     ap.add_argument("--only", default=None)
+    ap.add_argument("--in-place", action="store_true")
     a = ap.parse_args()
+    global REPO
+    if not a.in_place:
+        import shutil
+        shutil.rmtree(SCRATCH, ignore_errors=True)
+        sh(["git", "clone", "-q", "/repo", SCRATCH])
+        REPO = SCRATCH
     if sh(["git", "-C", REPO, "status", "--porcelain"]).stdout.strip():
         print("refusing: /repo is dirty"); return 2
     rows = []
@@ -43,6 +53,7 @@ def main():
             for p in props:
                 t = time.time()
                 env = dict(os.environ)
+                env["FGUTILS_REPO"] = REPO
                 r = sh([os.path.join(VERIF, "check"), p, "--tier", a.tier], cwd=VERIF, env=env)
                 viol = [l for l in r.stdout.splitlines() if l.startswith("VIOLATION")]
                 if expect == "quiet":
@@ -61,6 +72,11 @@ def main():
         print("%-28s %-4s %-60s %6ss %s" % (row[0], row[1], row[2][:60], row[3], row[4] if len(row) > 4 else ""))
         if "MISSED" in row[2] or "APPLY" in row[2]:
             bad += 1
+    if not a.in_place:
+        import shutil
+        shutil.rmtree(SCRATCH, ignore_errors=True)
+        # the generated tables were last written from the scratch copy: regenerate from /repo
+        sh([os.path.join(VERIF, "setup.sh")], cwd=VERIF)
     print("%d rows, %d missed" % (len(rows), bad))
     return 1 if bad else 0
 
